@@ -21,6 +21,7 @@ import XzVerif.Lemmas.FileInfoMain
 import XzVerif.Lemmas.RandomAccessIndex
 import XzVerif.Lemmas.RandomAccessAccept
 import XzVerif.Lemmas.RandomAccessExample
+import XzVerif.Lemmas.XzStd
 
 namespace XzVerif.C13
 open XzVerif.Index
@@ -683,6 +684,38 @@ theorem random_access_accepted (E : XzDecode.Env) (hloc : XzDecode.PayloadLocal 
       ∧ RandomAccess.SeqFile E fl.ignoreCheck cap xs :=
   RandomAccess.accepted_is_described E hloc hbd fl hc F cap h
 
+/-- **The headline for the model of the real decoder** (`XzEnv.stdEnv`: raw LZMA1/LZMA2/BCJ/Delta chains, CRC32/CRC64/SHA-256;
+    no hypothesis about the payload decoder is left).  For every byte string `F` that `lzma_stream_decoder`
+    (LZMA_CONCATENATED, LZMA_FINISH, `cap` bytes of output space) accepts: `F` has a description `xs` (so `F` consists of
+    any number of Streams, Blocks and Stream Padding), and — if the description passes the limits of `lzma_index_cat` /
+    `lzma_index_stream_padding` and the memory limit — for every index `idx` that `lzma_file_info_decoder` returns for
+    `F`, every Block `b` of a BLOCK-mode iteration of `idx`, and the Stream Flags `f` shown next to it: the Block decoder
+    started at `b.compressedFileOffset` returns LZMA_STREAM_END and exactly the bytes
+    `[b.uncompressedFileOffset, + b.uncompressedSize)` of the data the whole-file decoder produced, consuming
+    `b.totalSize` bytes; and the file-info decoder does return such an index unless the model's allocator fails. -/
+theorem random_access_std (fl : XzDecode.Flags) (hc : fl.concatenated = true) (F : List UInt8) (cap : Nat)
+    (h : (XzDecode.xzDecode XzEnv.stdEnv fl F cap).ret = .streamEnd) :
+    ∃ xs : List RandomAccess.XStream, xs ≠ [] ∧ F = RandomAccess.fileOf xs ∧
+      (Combinable (RandomAccess.descs xs) → ∀ memlimit, MemOk (max 1 memlimit) (RandomAccess.descs xs) →
+        ((fileInfo memlimit F.toArray).1 = .memError ∨ ∃ idx, fileInfo memlimit F.toArray = (.streamEnd, some idx))
+        ∧ ∀ idx, fileInfo memlimit F.toArray = (.streamEnd, some idx) →
+            ∀ info ∈ Impl.iterAll idx 2, ∀ b f, info.block = some b → info.stream.flags = some f →
+              RandomAccess.blockAt XzEnv.stdEnv f.check fl.ignoreCheck (F.drop b.compressedFileOffset) (cap - b.uncompressedFileOffset)
+                = { ret := .streamEnd,
+                    out := ((XzDecode.xzDecode XzEnv.stdEnv fl F cap).out.drop b.uncompressedFileOffset).take b.uncompressedSize,
+                    consumed := b.totalSize,
+                    compressed := b.unpaddedSize - (((F.getD b.compressedFileOffset 0).toNat + 1) * 4
+                                    + Container.checkSize f.check) }) := by
+  obtain ⟨xs, hne, hF, _, _, hok, hseq⟩ :=
+    random_access_accepted XzEnv.stdEnv XzEnv.payloadLocal_std XzEnv.payloadBounded_std fl hc F cap h
+  refine ⟨xs, hne, hF, ?_⟩
+  intro hcomb memlimit hmem
+  subst hF
+  refine ⟨?_, random_access_decode XzEnv.stdEnv XzEnv.payloadLocal_std fl hc cap xs hne hok hseq hcomb memlimit hmem⟩
+  rcases (random_access XzEnv.stdEnv XzEnv.payloadLocal_std fl hc cap xs hne hok hseq hcomb memlimit hmem).2.2 with hm | ⟨idx, hfi, _⟩
+  · exact Or.inl hm
+  · exact Or.inr ⟨idx, hfi⟩
+
 /-- the hypotheses of `random_access` are satisfiable by the model of the real decoder (`XzEnv.stdEnv`: raw LZMA2 decoder,
     CRC32): a two-Stream file with three Blocks and Stream Padding (Lemmas/RandomAccessExample.lean, kernel evaluation) -/
 example :
@@ -695,6 +728,19 @@ example :
   ⟨XzEnv.payloadLocal_std, RandomAccess.Example.xs_ok, RandomAccess.Example.xs_seq, RandomAccess.Example.xs_combinable,
    RandomAccess.Example.xs_memOk, by rw [RandomAccess.Example.file_bytes]; rfl, by decide +kernel, by decide +kernel,
    by decide +kernel⟩
+
+/-- … and, evaluated independently by the kernel: the whole-file decoder accepts that file (so the hypothesis of
+    `random_access_std` holds for it) and the Block decoder at the offsets 12, 48, 112 the real `xz --list` shows for it
+    returns "Hello\nWorld!\n", "A", "Hello\nWorld!\n" -/
+example :
+    let F := RandomAccess.fileOf RandomAccess.Example.xs
+    (XzDecode.xzDecode XzEnv.stdEnv { concatenated := true } F XzDecode.UNLIMITED).ret = .streamEnd
+    ∧ (XzDecode.xzDecode XzEnv.stdEnv { concatenated := true } F XzDecode.UNLIMITED).out
+        = RandomAccess.Example.hello ++ [65] ++ RandomAccess.Example.hello
+    ∧ (RandomAccess.blockAt XzEnv.stdEnv 1 false (F.drop 12) 13).out = RandomAccess.Example.hello
+    ∧ (RandomAccess.blockAt XzEnv.stdEnv 1 false (F.drop 48) 1) = ⟨.streamEnd, [65], 24, 5⟩
+    ∧ (RandomAccess.blockAt XzEnv.stdEnv 1 false (F.drop 112) XzDecode.UNLIMITED).out = RandomAccess.Example.hello := by
+  decide +kernel
 
 /-! ### non-vacuity -/
 
